@@ -395,10 +395,21 @@ def h_pairing_new(eng):
         return Coro(th, "get_service_params")
 
     StateStub = Rec(fields={"get_service_params": get_service_params}, name="State")
+    # Home Assistant's async_set_service_schema (outside the repository) may reject a description (e.g. a yaml docstring that
+    # is not a mapping): it raises on the k-th call, k chosen by the path (0 = never)
+    schema_calls = []
+    schema_fails_at = [0]
+
+    def set_schema(i, *a):
+        schema_calls.append(a)
+        w.emit("schema")
+        if schema_fails_at[0] == len(schema_calls):
+            raise exc("TypeError", "bad service description")
+
     DecBase = ClassRec("Decorator")
     smod = Module(it, S_PY, stubs={"_LOGGER": logger_stub(), "Function": Fn, "State": StateStub,
                                    "Decorator": DecBase, "DOMAIN": "pyscript",
-                                   "async_set_service_schema": lambda i, *a: w.emit("schema"),
+                                   "async_set_service_schema": set_schema,
                                    "SupportsResponse": Rec(fields={"NONE": "none"})})
     SD = smod.env.vars["ServiceDecorator"]
     C0, O0, R0 = cnt.snapshot(), own.snapshot(), reg.snapshot()
@@ -426,8 +437,22 @@ def h_pairing_new(eng):
         eng.assume(z3.Or(z3.Not(z3.Select(O0["dom"], key2)), z3.Select(O0[".v"], key2) == ctxname))
     if conflict:
         eng.assume(z3.And(z3.Select(O0["dom"], key2), z3.Select(O0[".v"], key2) != ctxname))
+    if not conflict:
+        schema_fails_at[0] = eng.choose(3 if two else 2, "schema-raises-at-call")
     kind, val = run_catching(it, lambda: it.await_(it.call(it.getattr_(dec, "start"), [], {})))
     eng.cover(f"start:{kind}")
+    if schema_fails_at[0]:
+        # start fails part-way: exactly the registrations made so far are undone - not more (a name of this decorator that
+        # was not registered yet may be registered by another function of the same context), not fewer
+        regs0, rems0 = w.events("service_register"), w.events("service_remove")
+        eng.oblige(f"{U}/start.failure-part-way-fails-the-start", kind == "exc" and val.cls.name == "TypeError")
+        ob = eng.oblige(f"{U}/start.failure-part-way-removes-exactly-the-names-registered-so-far",
+                        len(rems0) == len(regs0) == schema_fails_at[0] and all(it.eq(a[1], b[1]) for a, b in zip(regs0, rems0)))
+        if ob.status == "refuted":
+            ob.witness = {"signature": "partial-start-rollback", "fails_at": schema_fails_at[0], "names": 2 if two else 1}
+        C1 = cnt.snapshot()
+        eng.oblige(f"{U}/start.failure-part-way-leaves-the-counts-as-before", Forall([NameS], lambda k: snap_count(C1, k) == snap_count(C0, k), "k"))
+        return
     if conflict:
         # a refused name: start fails and leaves NONE of the decorator's names registered (all or nothing)
         rems0 = w.events("service_remove")
@@ -465,6 +490,8 @@ def h_pairing_new(eng):
 
 def replay_owner_name(w):
     from replay.native import run_native
+    if w.get("signature") == "partial-start-rollback":
+        return run_native("c12_partial_start", {"fails_at": 1})
     if w.get("signature") == "refused-name":
         for order in ("accepted-first", "refused-first"):
             r = run_native("c12_refused_name", dict(w, order=order))
